@@ -46,6 +46,11 @@ AFTER = [
     ("csv-header-validated-before-flag-cleared", "arrow_csv::reader::Decoder::decode", "header_validation", "false", re.compile(r"validate_header$")),
 ]
 
+PAIRED_STATE = [
+    # (instance, fn, field A, field B): resumable decoder state that only makes sense together
+    ("avro-vlq-state", "arrow_avro::reader::vlq::VLQDecoder::long", "in_progress", "shift"),
+]
+
 PARTIAL = [
     # (instance, fn, fields a rejecting exit must depend on)
     ("csv-flush-rejects-partial-record", "arrow_csv::reader::records::RecordDecoder::flush", {"current_field"}),
@@ -160,6 +165,34 @@ def run(ck, tier):
         else:
             ck.bad("C14.flag-after-success", iid, "%s clears self.%s at %s without having passed %s: if the input chunk ends before the action completes it is never retried"
                    % (fid, field, bad or "(no store found)", need.pattern), bad[0] if bad else "%s:%s" % (fn["file"], fn["line"]))
+
+    ck.rule("C14.paired-state", "the fields of a resumable decoder's carried state are written together: a store to one is accompanied (same block, dominated by, or "
+            "inevitably followed by) a store to the other, so an early return for 'need more input' cannot persist half of the state", floor=len(PAIRED_STATE))
+    for iid, fid, fa, fb in PAIRED_STATE:
+        fn = F.resolve(fid)
+        if fn is None:
+            ck.missing_anchor(fid, "C14.paired-state")
+            continue
+        b = Body(fn)
+        sa = sorted(set(sb for sb, si, st in flow.field_stores(b, fa)))
+        sb_ = sorted(set(sb for sb, si, st in flow.field_stores(b, fb)))
+        rets = set(b.return_blocks())
+
+        def accompanied(x, others):
+            if x in others:
+                return True
+            if b.must_pass(others, x):          # an `others` store dominates x
+                return True
+            r = set()
+            for s_ in b.succ(x):
+                r |= b.reachable(s_, removed_blocks=others)
+            return not (r & rets)               # every path on to return passes an `others` store
+        bad = [(fa, b.loc(x)) for x in sa if not accompanied(x, sb_)] + [(fb, b.loc(x)) for x in sb_ if not accompanied(x, sa)]
+        if sa and sb_ and not bad:
+            ck.ok("C14.paired-state", iid, "%d stores of %s and %d of %s, always together" % (len(sa), fa, len(sb_), fb))
+        else:
+            ck.bad("C14.paired-state", iid, "%s stores %s without the matching store of the other state field (stores: %s=%d, %s=%d): when the input ends inside a "
+                   "value the decoder resumes from inconsistent state" % (fid, bad, fa, len(sa), fb, len(sb_)), bad[0][1] if bad else "%s:%s" % (fn["file"], fn["line"]))
 
     ck.rule("C14.partial-input-rejected", "finish/flush have a rejecting exit that depends on the partial-record state", floor=len(PARTIAL))
     for iid, fid, fields in PARTIAL:
